@@ -50,6 +50,10 @@ Viols(e, pre, post, enrNext) ==
      (IF ~AllowedC06(pre, e.op, e.res, post) THEN {<<"C06", "token-step">>} ELSE {}) \cup
      (IF \E t \in Tokens : Cardinality(enrNext[t]) > 1 THEN {<<"C06", "token-enrolled-two-nodes">>} ELSE {})
    ELSE {}) \cup
+  (IF "C01" \in Props /\ e.op.op = "FetchRace" /\ e.res \in {"onlyB", "none"} /\ post.nodes[e.op.ka].present
+     THEN {<<"C01", "rejected-but-record-created">>} ELSE {}) \cup
+  (IF "C01" \in Props /\ e.op.op = "FetchRace" /\ e.res \in {"onlyA", "none"} /\ post.nodes[e.op.kb].present
+     THEN {<<"C01", "rejected-but-record-created">>} ELSE {}) \cup
   (IF "C06" \in Props /\ e.op.op = "FetchRace" /\ (e.res = "both" \/ (post.nodes[e.op.ka].present /\ post.nodes[e.op.kb].present))
      THEN {<<"C06", "token-enrolled-two-nodes-by-overlapping-fetches">>} ELSE {}) \cup
   (IF "C06" \in Props /\ e.op.op = "CreateToken" /\ e.res = "ok" /\ e.obs.reconstructible
